@@ -196,6 +196,8 @@ CORNERS = [
     ("control-chars", lambda: "".join(chr(i) for i in range(0, 32)) + "\x7f"),
     ("quotes-backslashes", lambda: "\"\\/\b\f\n\r\t '"),
     ("astral", lambda: "\U0001f600\U00010000\U0010ffff"),
+    ("c1-controls-separators", lambda: "".join(chr(i) for i in range(0x7F, 0xA1)) + "\u2028\u2029\ufeff\u200b\u00ad"),
+    ("every-bmp-block", lambda: "".join(chr(i) for i in range(0x20, 0xD800, 0x61)) + "".join(chr(i) for i in range(0xE000, 0xFFFE, 0x3D))),
     ("bmp-edge", lambda: "퟿￾￿  "),
     ("empty-str", lambda: ""),
     ("true", lambda: True),
@@ -395,6 +397,6 @@ OBLIGATIONS = [
         shards={"quick": [{"deep": 50}], "thorough": [{"deep": 50}, {"deep": 200}]},
         twin=[{"deep": 50, "twin_label": "rich-nested"}],
         timeout={"quick": 100, "thorough": 300},
-        bounds={"quick": "27 JSON-native corner classes (incl. texts of 4 KiB, 8 KiB, 64 KiB, 1 MiB and a 70 KB list) + 8 rich values (path, date, time, 4 sets, complex) + custom json_default, nesting depth {0,1,3,50,250,300} in lists or dicts, binary and text files, made by FileDestination(json_default=) / FileDestination(encoder=) / to_file() / over a codecs.getwriter text stream - witnesses per class, not a for-all claim"},
+        bounds={"quick": "29 JSON-native corner classes (incl. texts of 4 KiB, 8 KiB, 64 KiB, 1 MiB and a 70 KB list) + 8 rich values (path, date, time, 4 sets, complex) + custom json_default, nesting depth {0,1,3,50,250,300} in lists or dicts, binary and text files, made by FileDestination(json_default=) / FileDestination(encoder=) / to_file() / over a codecs.getwriter text stream - witnesses per class, not a for-all claim"},
     ),
 ]
